@@ -22,7 +22,8 @@ def templates(rng):
     """yields (name, builder) where builder(P) -> Program and P(name, ty) makes the parameter expression"""
     out = []
     tys = [U(1), U(4), U8, U(16), U(64), U(256), BOOL, TUP(U8, U(16)), ARR(U8, 3), OPT(U8), EITHER(U8, U(16)), LIST(U8, 4),
-           TUP(OPT(U8), EITHER(U(4), U8)), OPT(TUP(U8, U(16))), LIST(TUP(U8, U8), 4), UNIT, ARR(U8, 0), TUP(U8,)]
+           TUP(OPT(U8), EITHER(U(4), U8)), OPT(TUP(U8, U(16))), LIST(TUP(U8, U8), 4), UNIT, ARR(U8, 0), TUP(U8,),
+           U(2), U(32), U(128), ARR(BOOL, 3), LIST(U8, 2), LIST(U8, 8), EITHER(UNIT, U8), OPT(OPT(U8)), ARR(U(16), 5), TUP(U(1), U(2), U(4))]
 
     for i, ty in enumerate(tys):
         def b(P, ty=ty):
@@ -66,13 +67,57 @@ def templates(rng):
     def none(P):
         return Program([], Block(observe(Wit("W", U8), U8, "EXP", Fresh("o")))), {}
     out.append(("no-params", none))
+
+    # two parameters of one type side by side in an order-sensitive position: a swap of the looked-up names shows
+    def adjacent(P):
+        e = JetCall("subtract_8", [P("A", U8), P("B", U8)], TUP(BOOL, U8))
+        return Program([], Block(observe(e, TUP(BOOL, U8), "EXP", Fresh("o")))), {"A": U8, "B": U8}
+    out.append(("two-adjacent-same-type", adjacent))
+
+    # names that are prefixes of each other / differ in case / contain digits and underscores
+    def lookalike(P):
+        e = TupleE([P("K", U8), P("K1", U8), P("K_1", U8), P("k", U8), P("KK", U8)])
+        return Program([], Block(observe(e, TUP(U8, U8, U8, U8, U8), "EXP", Fresh("o")))), {"K": U8, "K1": U8, "K_1": U8, "k": U8, "KK": U8}
+    out.append(("lookalike-names", lookalike))
+
+    # a function with a parameter, inlined twice, itself called from another function
+    def nested_fn(P):
+        inner = FnDef("inner", [("y", U8)], U8, Block([], JetCall("xor_8", [Var("y", U8), P("K", U8)], U8)))
+        outer = FnDef("outer", [("a", U8), ("b", U8)], TUP(U8, U8), Block([], TupleE([Call(inner, [Var("b", U8)]), Call(inner, [Var("a", U8)])])))
+        main = Block(observe(Call(outer, [Wit("W1", U8), P("K", U8)]), TUP(U8, U8), "EXP", Fresh("o")))
+        return Program([inner, outer], main), {"K": U8}
+    out.append(("nested-function-inlined-twice", nested_fn))
+
+    # a parameter that decides success: unwrap / unwrap_left / assert! on it
+    def deciding(P):
+        main = Block([Let("a", U8, Unwrap(P("MAYBE", OPT(U8)))), Let("b", U(16), UnwrapRight(P("SIDE", EITHER(U8, U(16))))),
+                      ExprStmt(Assert(P("OK", BOOL)))] + observe(TupleE([Var("a", U8), Var("b", U(16))]), TUP(U8, U(16)), "EXP", Fresh("o")))
+        return Program([], main), {"MAYBE": OPT(U8), "SIDE": EITHER(U8, U(16)), "OK": BOOL}
+    out.append(("parameter-decides-success", deciding))
+
+    # a parameter under a cast, inside dbg!, inside a match arm and in a list literal
+    def wrapped(P):
+        main = Block([Let("c", U(16), Cast(P("PAIR", TUP(U8, U8)), U(16))),
+                      Let("d", U8, Dbg(P("D", U8))),
+                      Let("m", U8, Match(Wit("B", BOOL), Arm("false", P("D", U8)), Arm("true", Block([Let("t", U8, P("E", U8))], Var("t", U8))))),
+                      Let("l", LIST(U8, 4), ListE([P("D", U8), Wit("W", U8), P("E", U8)], U8, 4))] +
+                     observe(TupleE([Var("c", U(16)), Var("d", U8), Var("m", U8)]), TUP(U(16), U8, U8), "EXP", Fresh("o")) +
+                     observe(Var("l", LIST(U8, 4)), LIST(U8, 4), "EXPL", Fresh("q")))
+        return Program([], main), {"PAIR": TUP(U8, U8), "D": U8, "E": U8}
+    out.append(("cast-dbg-arm-list", wrapped))
+
+    # a parameter shadowed by nothing: a variable and a witness of the same name do not interfere
+    def same_as_variable(P):
+        main = Block([Let("K", U8, Wit("K", U8))] + observe(TupleE([Var("K", U8), P("K", U8)]), TUP(U8, U8), "EXP", Fresh("o")))
+        return Program([], main), {"K": U8}
+    out.append(("name-shared-with-variable-and-witness", same_as_variable))
     return out
 
 
 def cases(tier, seed):
     rng = random.Random(seed)
     out = []
-    nvals = 2 if tier == "quick" else 6
+    nvals = 3 if tier == "quick" else 8
     for name, build in templates(rng):
         prog_t, ptys = build(lambda n, t: Param(n, t))
         expect = {n: ty_str(t) for n, t in ptys.items()}
